@@ -96,8 +96,10 @@ def run(prop, tier, replay=None):
                 sels = [".".join(s["path"]) + (".*" if s["wild"] and s["path"] else "*" if s["wild"] else "") for s in ev["sels"]]
                 kinds = sorted(set(("wild" if s["wild"] else "exact") + ("-proper-prefix" if len(s["path"]) < len(ev["target"]) else "-full" if len(s["path"]) == len(ev["target"]) else "-longer") for s in ev["sels"]))
                 sig = dict(module="Selector", formula=formula, selector_kinds=kinds)
-                what = "%s: selectors %s target %s bound %s" % (formula, sels, ".".join(ev["target"]), ev["bound"])
-                rcase, drv = dict(sels=ev["sels"]), "selector"
+                what = "%s: selectors %s target %s bound %s (%s%s)" % (formula, sels, ".".join(ev["target"]), ev["bound"],
+                                                                     ["FilesOption then ServiceConfigOption", "ServiceConfigOption then FilesOption", "RegisterConn, descriptors by reflection"][(ev.get("v", 0) // 2) % 3],
+                                                                     ", method annotated on the template of one of the rules" if ev.get("v", 0) % 2 else "")
+                rcase, drv = dict(id=ev["case"], sels=ev.get("orig") or ev["sels"]), "selector"
             elif src == "selector":
                 sig = dict(module="Healthz", formula=formula)
                 what = "healthz: Check(%r) -> http %s status %s" % (ev["service"], ev["http"], ev["status"])
